@@ -903,6 +903,9 @@ def run(prog, ctx):
     s7(prog, ctx, fns)
     s8(prog, ctx, fns, exc)
     s10_counter_width(prog, ctx, fns)
+    common.index_param_rule(prog, ctx, "S14")
+    s13_entry_subscripts(prog, ctx, fns)
+    s15_deref_known_null(prog, ctx, fns)
     s11_stack_alloc(prog, ctx, fns, "S11")
     s9(prog, ctx, reach)
 
@@ -951,6 +954,89 @@ def s11_stack_alloc(prog, ctx, fns, rule):
             else:
                 ctx.ok(rule, inst, c.where, "sized by %s: file / directory names, limited by the operating system" % (sorted(roots) or "no parameter"))
     ctx.counts["%s stack allocations" % rule] = n
+
+
+def s13_entry_subscripts(prog, ctx, fns):
+    """S13: `obj->file_entry[obj->length]` is the slot BEHIND the entries in use.  It may be touched only where that slot is being
+    created (the array was just grown to length + 1 and the count is stepped right after); everywhere else the last entry is
+    `[obj->length - 1]`."""
+    n = 0
+    for f in fns:
+        cfg = f.cfg
+        for x in f.walk():
+            if x.k != "ArraySubscriptExpr" or not render(x.children[0]).endswith("file_entry"):
+                continue
+            base = render(x.children[0])[:-len("file_entry")]
+            it = render(x.children[1]).replace(" - 0", "")
+            if it not in (base + "length", "(" + base + "length)"):
+                continue
+            n += 1
+            grows = [c for c in f.calls("realloc") if ("%slength + 1" % base) in render(c) and cfg.node_dominates(c, x)]
+            steps = [st for l, r, st, k in query.stores(f) if k == "++" and render(l) == base + "length" and (st is x.children[1].strip() or st.within(x) or cfg.node_dominates(x, st))]
+            if grows and steps:
+                ctx.ok("S13", "%s: %s" % (f.name, render(x)[:50]), x.where, "the slot being created: array grown to length + 1, the count stepped afterwards")
+            elif any(st.within(x) for st in steps):
+                ctx.ok("S13", "%s: %s" % (f.name, render(x)[:50]), x.where, "the count is stepped in the subscript itself")
+            else:
+                ctx.fail("S13", "%s: %s" % (f.name, render(x)[:50]), x.where,
+                         "`%s` addresses the slot behind the entries in use (the last entry is [%slength - 1]): a write lands outside the array when it is full, a read "
+                         "returns what happens to be there" % (render(x)[:60], base), key="entry-behind:%s" % f.name)
+    ctx.counts["S13 subscripts with the entry count"] = n
+
+
+def s15_deref_known_null(prog, ctx, fns):
+    """S15: a pointer is not dereferenced where the tests on the way say it is NULL (`if (length == NULL) *length = 0;`): the test and
+    the use contradict each other - one of them is wrong, and the use crashes."""
+    n = 0
+    for f in fns:
+        cfg = f.cfg
+        # edges that say "<name> is NULL"
+        null_edges = {}
+        for (b, i, s2) in cfg.edges():
+            l = cfg.edge_lit(b, i)
+            if l is None:
+                continue
+            nm = None
+            if l.kind == "truth" and not l.pol and l.node is not None and l.node.strip().k == "DeclRefExpr":
+                nm = l.atom
+            elif l.kind == "eq" and l.pol and (l.lhs.is_null_const() or l.rhs.is_null_const()):
+                o = l.rhs if l.lhs.is_null_const() else l.lhs
+                if o.strip().k == "DeclRefExpr":
+                    nm = render(o)
+            if nm:
+                null_edges.setdefault(nm, []).append((b, i))
+        if not null_edges:
+            continue
+        for x in f.walk():
+            p = None
+            if x.k == "UnaryOperator" and x.j.get("op") == "*" and x.children[0].strip().k == "DeclRefExpr":
+                p = x.children[0].strip()
+            elif x.k == "MemberExpr" and x.j.get("arrow") and x.children[0].strip().k == "DeclRefExpr":
+                p = x.children[0].strip()
+            elif x.k == "ArraySubscriptExpr" and x.children[0].strip().k == "DeclRefExpr" and (x.children[0].strip().j.get("ct") or "").endswith("*"):
+                p = x.children[0].strip()
+            if p is None or p.j.get("dk") not in ("param", "local") or p.j["name"] not in null_edges:
+                continue
+            if x.parent is not None and x.parent.k == "UnaryExprOrTypeTraitExpr":
+                continue
+            d = cfg.block_of(x)
+            name = p.j["name"]
+            if d is None or d not in cfg.reachable(cfg.entry):
+                continue
+            if d in cfg.reachable(cfg.entry, avoid_edges=null_edges[name]):
+                continue                                    # there is a way to the use that passes no "is NULL" edge
+            # every way to the use passes an "is NULL" edge; a new value in between?
+            srcs = set(b9 for (b9, i9) in null_edges[name])
+            between = [st for l9, r9, st, k9 in query.stores(f) if render(l9) == name and cfg.block_of(st) is not None and d in cfg.reachable(cfg.block_of(st))
+                       and any(cfg.block_of(st) in cfg.reachable(b9) for b9 in srcs)]
+            if between or any(render(a9) == "&" + name for c9 in f.calls() for a9 in c9.call_args()):
+                continue
+            n += 1
+            ctx.fail("S15", "%s: `%s` is not used where it is NULL" % (f.name, name), x.where,
+                     "`%s` is evaluated only on ways that pass a test saying `%s` is NULL: the access crashes" % (render(x)[:50], name),
+                     key="deref-null:%s:%s" % (f.name, name))
+    if n == 0:
+        ctx.ok("S15", "no pointer is dereferenced under a test that says it is NULL", "lib/", "%d functions" % len(fns))
 
 
 NARROW = ("unsigned char", "signed char", "char", "short", "unsigned short", "_Bool", "bool")
